@@ -247,7 +247,6 @@ func (g *Graph) liveness() []map[int]bool {
 				}
 			}
 		}
-		// range head defines key/val on the body edge only; treat as no def (conservative)
 	}
 	live := make([]map[int]bool, n)
 	for i := range live {
@@ -259,8 +258,12 @@ func (g *Graph) liveness() []map[int]bool {
 		for i := n - 1; i >= 0; i-- {
 			nd := g.Nodes[i]
 			out := map[int]bool{}
-			for _, s := range nd.Succ {
+			for si, s := range nd.Succ {
 				for v := range live[s.ID] {
+					// a range head defines its key and value on the body edge
+					if nd.Kind == NRange && si == 0 && ((nd.KeyVar != nil && v == nd.KeyVar.ID) || (nd.ValVar != nil && v == nd.ValVar.ID)) {
+						continue
+					}
 					out[v] = true
 				}
 			}
